@@ -119,6 +119,11 @@ func genLattice(g *Rng, idx uint64) *Plan {
 		{NotOnOrAfter: i64(x + latticeMargin(digit(5)) - mcs), Recipient: spBase + "/saml/acs", InResponseTo: "id-req",
 			Method: Pick(g, "", "", "urn:oasis:names:tc:SAML:2.0:cm:holder-of-key", "urn:oasis:names:tc:SAML:2.0:cm:sender-vouches")},
 	}
+	for ci := range a.Confs {
+		if g.Bool(0.2) {
+			a.Confs[ci].NotBefore = i64(-86_400_000)
+		}
+	}
 	st.Classes = []string{"resp-issue:" + digit(0), "as0-issue:" + digit(1), "as0-nb:" + digit(2), "as0-noa:" + digit(3), "as0-conf0:" + digit(4), "as0-conf1:" + digit(5)}
 	spec.Assertions = []AsrtSpec{a}
 	st.Spec = spec
@@ -192,6 +197,11 @@ func genWindows(g *Rng, tier string) *Plan {
 				}
 				if c == "far-in" && g.Bool(0.1) {
 					cf.NOAText, cf.NotOnOrAfter = Pick(g, "9999-12-31T23:59:59Z", "2400-01-01T00:00:00Z"), i64(10_000_000_000_000)
+				}
+				if g.Bool(0.2) {
+					// a NotBefore on the confirmation too, long past: present, legal, and no reason to look at NotOnOrAfter any differently
+					cf.NotBefore = i64(-86_400_000)
+					cf.Address = Pick(g, "", "192.0.2.7")
 				}
 				a.Confs = append(a.Confs, cf)
 				st.Classes = append(st.Classes, fmt.Sprintf("as%d-conf%d:%s", j, q, c))
